@@ -5,6 +5,7 @@ import os
 
 import common
 import dharness
+import wharness
 import env as envmod
 from props import c07
 
@@ -319,6 +320,69 @@ def stage_transport(ctx, n):
             ctx.corr_broken.append({"stream": "TransportGroupIO.pull_force-vs-transportPick", "op": line, "real": real, "model": out})
 
 
+def corpus_transport_convergence(ctx):
+    """scripted: several requests into a Transport group (1-3 transport nodes with scripted, ample free space) are all filed
+    at once or one per pass; the real daemon runs fault-free passes to a fixed point.  Every request must end completed: none
+    of the documented reasons to stay pending applies (sources healthy and local, space for every file, nothing to check)."""
+    import itertools
+    import shutil
+    import world as worldmod
+    probs = []
+    with envmod.Env() as e:
+        for k, nreq, spread in itertools.product([1, 2, 3], [2, 5, 8], ["at-once", "one-per-pass"]):
+            w = worldmod.World(e)
+            db = w.db
+            for m in (db.StorageTransferAction, db.ArchiveFileCopyRequest, db.ArchiveFileImportRequest, db.ArchiveFileCopy,
+                      db.ArchiveFile, db.ArchiveAcq, db.StorageNode, db.StorageGroup):
+                m.delete().execute()
+            shutil.rmtree(os.path.join(e.tmp, "roots"), ignore_errors=True)
+            from alpenhorn.io import default as dmod
+            with dmod._mutex:
+                dmod._reserved_bytes.clear()
+            gs, gt = w.group("gs"), w.group("gt", io_class="Transport")
+            src = w.node("src", gs, stype="F")
+            ts = [w.node(f"t{i}", gt, stype="T") for i in range(k)]
+            acq = w.acq("acq")
+            size = 10000
+            files = [w.file(acq, f"f{i}.dat", bytes([65 + i]) * size) for i in range(nreq)]
+            for f in files:
+                w.copy(f, src, has="Y")
+            free = {n.root: 12 * size for n in ts}          # room for six transfers' reservations at once, per node
+            real_statvfs = os.statvfs
+
+            class SV:
+                def __init__(self, b):
+                    self.f_bavail, self.f_bsize = b, 1
+            os.statvfs = lambda path, _f=free: SV(_f[str(path)]) if str(path) in _f else real_statvfs(path)
+            os.environ["PATH"] = os.path.join(wharness.FAKE, "none")
+            log = [f"{k} transport node(s) with {12 * size} bytes free each; {nreq} requests of {size} bytes, filed {spread}"]
+            try:
+                d = worldmod.Daemon(e, "h1")
+                todo = list(files)
+                if spread == "at-once":
+                    for f in todo:
+                        w.req(f, src, gt)
+                    todo = []
+                for ps in range(nreq + 6):
+                    if todo:
+                        w.req(todo.pop(0), src, gt)
+                    d.iterate()
+                    ran = d.drain()
+                    log.append(f"pass {ps + 1}: {[r[1] for r in ran][:6]}")
+            finally:
+                os.statvfs = real_statvfs
+                os.environ["PATH"] = "/usr/local/bin:/usr/bin:/bin"
+            RQ = db.ArchiveFileCopyRequest
+            pend = [r.file_id for r in RQ.select().where(RQ.completed == 0, RQ.cancelled == 0)]
+            ctx.case(("transport-convergence", k, nreq, spread), nontrivial=True, sample={"scenario": log} if (k, nreq, spread) == (2, 5, "at-once") else None)
+            ctx.count(f"transport-convergence:{'all-completed' if not pend else 'pending'}")
+            if pend:
+                probs.append((f"{len(pend)} of {nreq} requests into Transport group gt are still pending after {nreq + 6} fault-free passes with "
+                              f"nothing queued, although every source copy is healthy and local and each of the {k} node(s) has "
+                              f"{12 * size} bytes free for files of {size} bytes (none of the documented reasons applies)", log))
+    return probs
+
+
 def one_history(ctx, e, hseed, hsm=None):
     """a random history, then fault-free rounds to a fixed point; returns (log, rounds, [(key, problem)])"""
     import random
@@ -372,6 +436,8 @@ def run(ctx):
         for p, steps in corpus_hsm(ctx, e):
             ctx.violation("residue:hsm:" + p.split("(")[0][:40].replace(" ", "_"), p, {"kind": "hsm-scenario", "steps": steps})
     stage_transport(ctx, 150 if ctx.quick() else 4000)
+    for p, lg in corpus_transport_convergence(ctx):
+        ctx.violation("transport:not-converged", p, {"kind": "corpus", "name": "transport convergence", "steps": lg})
     for p in corpus_modify_then_pull(ctx):
         ctx.violation("modify-md5-nulls-size", p, {"kind": "corpus", "name": "file modify --md5 then pull"})
     with envmod.Env() as e:
@@ -400,7 +466,10 @@ def replay(ctx, path):
         return 1 if probs else 0
     if d.get("kind") == "corpus":
         with envmod.Env() as e:
-            probs = corpus_modify_then_pull(ctx) if "modify" in d.get("name", "") else corpus_shadowed(e)
+            if "transport" in d.get("name", ""):
+                probs = [p for p, _ in corpus_transport_convergence(ctx)]
+            else:
+                probs = corpus_modify_then_pull(ctx) if "modify" in d.get("name", "") else corpus_shadowed(e)
         for p in probs:
             print("VIOLATION-REPRODUCED:", p)
         return 1 if probs else 0
